@@ -190,8 +190,9 @@ def run_history(sc, want_idempotence=True, faults=None, audits=True):
     top = sc.get('top', 'Manifest')
     with World(sc) as w:
         w.build()
-        clock = Clock(epoch_ns=w.epoch_ns + 10_000_000_000, key=sc['order_key'], mode='micro')
-        seam = Seam(w.root, order_key=sc['order_key'], virtual_root=True, clock=clock, faults=faults)
+        clock = Clock(epoch_ns=w.epoch_ns + 10_000_000_000 + int(sc.get('clock_offset_s', 0)) * 10**9,
+                      key=sc['order_key'], mode='micro')
+        seam = Seam(w.root, order_key=sc['order_key'], virtual_root=True, clock=clock, faults=faults, patch_time=True)
         opi = 0
         for ri, rnd in enumerate(sc.get('rounds', [])):
             for m in rnd.get('edits', []):
